@@ -99,3 +99,16 @@ Theorem C16_buggy_generate_refuted_leak_on_panic :
     let '(c, st) := run_generate_buggy nofail T N f pan (init 0 0) in
     c = RPanic /\ valid [] (atr st) [(O, (16, 4))] /\ ~ valid [] (atr st) [].
 Proof. exact boxed_generate_buggy_refuted_leak. Qed.
+
+(* ---- tie to the current source (coq/gen/GenPipe.v): the boxed generate obtains its block with
+   Box::new_uninit (what HeapOps.boxed_generate models as box_new_uninit: nothing requested for a
+   zero-sized array, handle_alloc_error on failure, freed by the box when the caller's function
+   panics) and hands the same pointer back with Box::from_raw; its fill loop is the stack form's ---- *)
+From Coq Require Import String.
+From GA Require Import Pipe PipeTie.
+From GAGen Require Import GenPipe.
+Local Open Scope string_scope.
+Theorem C16_source_boxed_generate_frame :
+  gen_boxed_generate_frame = ("Box::new_uninit", "Box::from_raw(Box::into_raw(..).cast())") /\
+  gen_boxed_generate = gen_generate.
+Proof. exact (conj (proj2 tie_generate_frames) boxed_generate_same_loop). Qed.
